@@ -247,7 +247,7 @@ func GenC12(seed, run uint64, ok CompileOK) *Scenario {
 
 // regex material for C16 ----------------------------------------------------
 
-var rxAtoms = []string{"a", "b", "c", "d", ".", "[ab]", "[^a]", "[a-c]"}
+var rxAtoms = []string{"a", "b", "c", "d", ".", "[ab]", "[^a]", "[a-c]", "a", "b", "é", "[éa]"}
 
 // GenRegex draws a pattern over a 4-letter alphabet with up to 3 groups;
 // some patterns are invalid on purpose.
@@ -314,18 +314,22 @@ func countGroups(p string) int {
 
 func genSubject(r *Rng) string {
 	n := r.Range(0, 6)
-	b := make([]byte, n)
-	for i := range b {
-		b[i] = "abcd"[r.Intn(4)]
+	out := ""
+	for i := 0; i < n; i++ {
+		if r.Chance(1, 12) {
+			out += r.Pick([]string{"é", "中", "ü"}) // multi-byte characters
+		} else {
+			out += string("abcd"[r.Intn(4)])
+		}
 	}
-	return string(b)
+	return out
 }
 
 // ReplPool: replacement strings shared between operations. Depending on the
 // pattern's group count some of them name a group the pattern does not have;
 // the executor then runs the call but does not judge its result (the statement
 // is silent there) - such a call is legal history for the calls that follow.
-var ReplPool = []string{"$1$2x", "<$1$2x>", "$2y$1", "[$10]", "$1x", "$3z$1", "$2$1", "$1"}
+var ReplPool = []string{"$1$2x", "<$1$2x>", "$2y$1", "[$10]", "$1x", "$3z$1", "$2$1", "$1", "$2 é $1", "é$1"}
 
 func genRepl(r *Rng, groups int) string {
 	if r.Chance(1, 3) {
@@ -337,10 +341,10 @@ func genRepl(r *Rng, groups int) string {
 			// $n with 1 <= n <= groups, never directly followed by a digit
 			out += "$" + string(rune('0'+r.Range(1, groups)))
 			if r.Chance(1, 2) {
-				out += r.Pick([]string{"x", "-", "_", "y"})
+				out += r.Pick([]string{"x", "-", "_", "y", "é", " é "})
 			}
 		} else {
-			out += r.Pick([]string{"x", "-", "y", "ab", ""})
+			out += r.Pick([]string{"x", "-", "y", "ab", "", "é", "中"})
 		}
 	}
 	return out
